@@ -58,6 +58,9 @@ CHECKS = {
  "C11": ("ExecTime.tla models VM, watcher goroutine and context with fairness (Prompt, NoLeak as temporal properties; 'no watcher' and 'no cancel()' negative controls must be refuted); the real interpreter runs looping scripts under deadlines from 0 to 300 ms, cancellation at arbitrary moments, 1-64 concurrent executions, directly and through Spec.Walk, and terminating scripts under contexts that outlive the call; TLC judges promptness within an explicit slack, the timeout error and its routing to the error node, and goroutine counts.",
          "8.C11", "wall-clock: slack 500 ms (<=4 concurrent) / 2.5 s (<=64) against a 6 s watchdog; goroutine leak = count not back within 400 ms",
          "TLA+ explicit watcher/interrupt model with liveness (ExecTime.tla) + timed traces of the real interpreter judged by TLC"),
+ "C12": ("Specter.tla models the atomically swapped spec pointer (a torn-update negative control must be refuted); concurrent walks of distinct machine states over one compiled spec object (native and ECMAScript actions and guards, failing and succeeding) run while an UpdatableSpec is swapped between versions, under GOMAXPROCS 2/4/16, plain and -race; TLC (Trace_Specter) searches a linearization in which every walk returns exactly the result that ONE version current between its call and return gives alone; spec snapshots must be unchanged; every race report is a violation.",
+         "8.C12", "schedules are whatever the Go runtime produces (not gated); the race detector is a sensor, absence of a report covers only the executions driven; solo results come from the real engine",
+         "TLA+ atomic-pointer model + TLC linearizability trace judge over concurrent walks/swaps of the real engine, race detector as sensor"),
 }
 def main():
     checks = []
